@@ -944,6 +944,11 @@ func runC04(ctx *Ctx) *Result {
 	}
 	c04Unit(ctx, res, rng.Fork(), nscripts)
 	c04WholeRun(ctx, res, rng.Fork(), ntrees)
+	nparas := 600
+	if ctx.Tier == "thorough" {
+		nparas = 20000
+	}
+	c04ParaUnit(ctx, res, rng.Fork(), nparas)
 	c04Floors(res)
 	return res
 }
@@ -983,6 +988,10 @@ func c04Floors(res *Result) {
 		floor("whole.target-with-AUTOFIX file "+k, 3)
 	}
 	floor("whole.target file ALTERNATIVES", 2)
+	floor("para.mode default finish-goes-on=true", 300)
+	floor("para.mode -f finish-goes-on=false", 50)
+	floor("para.mode -f finish-goes-on=true", 50)
+	floor("para.mode -F a line changed between Process and Finish", 50)
 	floor("whole.feature inter.crossing", 30)
 	floor("whole.feature inter.subst-dup-assign", 10)
 	floor("whole.feature inter.subst-sed-to-vars", 5)
@@ -1000,6 +1009,8 @@ func replayC04(ctx *Ctx, rep map[string]any) *Result {
 	switch rep["kind"] {
 	case "whole":
 		c04ReplayWhole(ctx, res, rep)
+	case "para":
+		c04CheckParas(ctx, res, []c04Para{c04ParaFromReplay(rep)})
 	case "script":
 		dir := filepath.Join(ctx.Work, "c04unit")
 		src, _ := rep["source"].(bool)
